@@ -6,6 +6,7 @@ they read / advance the active :class:`VirtualClock`.
 """
 
 import heapq
+import sys as _sys
 import time as _time
 
 _real = {
@@ -70,10 +71,11 @@ class VirtualClock:
         return len(self._heap)
 
     # -- what the system under test sees -------------------------------------
-    def time(self):
-        self.reads += 1
-        if self.on_read is not None:
-            self.on_read(self)
+    def time(self, counted=True):
+        if counted:
+            self.reads += 1
+            if self.on_read is not None:
+                self.on_read(self)
         return EPOCH0 + self.now + self.skew
 
     def sleep(self, d):
@@ -95,7 +97,13 @@ class VirtualClock:
 
 def _time_time():
     c = _ACTIVE
-    return _real["time"]() if c is None else c.time()
+    if c is None:
+        return _real["time"]()
+    # only reads made by the system under test advance / fault the clock: a
+    # third-party module that happens to read the time while being lazily
+    # imported must not shift the schedule (replay determinism)
+    name = _sys._getframe(1).f_globals.get("__name__", "")
+    return c.time(counted=name.startswith("cotengra"))
 
 
 def _time_monotonic():
